@@ -187,20 +187,42 @@ def check_override(res, f, name, where):
                 if not guarded:
                     problems.append("dict.%s(self, %s, ...) is not under `%s in entry_objs`" % (meth, k, k))
             else:
-                # bulk insertion: must be post-validated on every normal exit
-                post = [False]
+                # bulk insertion.  In a constructor it may be post-validated on every normal
+                # exit (a failed construction yields no object).  In a mutator of an existing
+                # object it is a violation: the undeclared key is already in the dictionary
+                # when the validation raises, and stays there.
+                if name != "__init__":
+                    problems.append("bulk dict.%s(self, ...) inserts the keys before they are validated: a rejected %s leaves the undeclared key in the dictionary" % (meth, name))
+                    continue
+
+                def rejecting_loop(node):
+                    # for k in self(.keys()): if k not in entry_objs: raise
+                    if not isinstance(node, ast.For):
+                        return False
+                    it = norm(node.iter)
+                    if it not in ("self.keys()", "self", "list(self)", "list(self.keys())"):
+                        return False
+                    v = dotted(node.target)
+                    for i in node.body:
+                        if isinstance(i, ast.If) and isinstance(i.test, ast.Compare) and isinstance(i.test.ops[0], ast.NotIn) and dotted(i.test.left) == v and dotted(i.test.comparators[0]) == "entry_objs" and any(isinstance(b, ast.Raise) for b in i.body):
+                            return True
+                    return False
+
+                outer = getattr(f, "_parent", None)
+                helpers = set()
+                for h in (outer.body if isinstance(outer, ast.FunctionDef) else []):
+                    if isinstance(h, ast.FunctionDef) and h is not f and len(h.args.args) == 1 and h.args.args[0].arg == "self" and any(rejecting_loop(b) for b in h.body) and not any(isinstance(x, ast.Return) and x.value is not None for x in ast.walk(h)):
+                        top = [b for b in h.body if not (isinstance(b, ast.Expr) and isinstance(b.value, ast.Constant))]
+                        if all(rejecting_loop(b) for b in top):
+                            helpers.add(h.name)
 
                 def on(node, st):
                     if node is n:
                         return st.add("bulk")
-                    if isinstance(node, ast.For) and "bulk" in st.must:
-                        # for k in self(.keys()): if k not in entry_objs: raise
-                        it = norm(node.iter)
-                        if it in ("self.keys()", "self", "list(self)", "list(self.keys())"):
-                            v = dotted(node.target)
-                            for i in node.body:
-                                if isinstance(i, ast.If) and isinstance(i.test, ast.Compare) and isinstance(i.test.ops[0], ast.NotIn) and dotted(i.test.left) == v and dotted(i.test.comparators[0]) == "entry_objs" and any(isinstance(b, ast.Raise) for b in i.body):
-                                    return st.add("validated")
+                    if "bulk" in st.must and rejecting_loop(node):
+                        return st.add("validated")
+                    if "bulk" in st.must and isinstance(node, ast.Call) and isinstance(node.func, ast.Name) and node.func.id in helpers and len(node.args) == 1 and dotted(node.args[0]) == "self":
+                        return st.add("validated")
                     return st
 
                 mf = MustFlow(f, on, node_types=(ast.Call, ast.For)).run()
